@@ -1,6 +1,7 @@
 package main
 
 import (
+	"go/types"
 	"encoding/json"
 	"flag"
 	"fmt"
@@ -47,6 +48,7 @@ func main() {
 	ctlDir := flag.String("controls", "/verif/checker/testdata/controls", "positive-control package directory")
 	dump := flag.String("dump", "", "dump SSA with terms for function (name or substring)")
 	list := flag.Bool("list", false, "list functions")
+	listSig := flag.Bool("listsig", false, "list named functions with their receiver+signature keys (to regenerate known_sigs.go)")
 	auxFile := flag.String("aux", "", "JSON written by thorough.sh (mutant replay, compiler bounds-check list, windows build)")
 	flag.Parse()
 
@@ -72,6 +74,32 @@ func main() {
 	if *list {
 		for _, f := range c.Funcs {
 			fmt.Println(c.fname(f))
+		}
+		return
+	}
+	if *listSig && *dump == "fields" {
+		sc := c.Types.Scope()
+		for _, n := range sc.Names() {
+			st, ok := sc.Lookup(n).Type().Underlying().(*types.Struct)
+			if _, isT := sc.Lookup(n).(*types.TypeName); !ok || !isT {
+				continue
+			}
+			for i := 0; i < st.NumFields(); i++ {
+				fmt.Printf("%s\t%s\t%s\n", n, st.Field(i).Name(), types.TypeString(st.Field(i).Type(), func(p *types.Package) string {
+					if p == c.Types {
+						return ""
+					}
+					return p.Path()
+				}))
+			}
+		}
+		return
+	}
+	if *listSig {
+		for _, f := range c.Funcs {
+			if f.Parent() == nil {
+				fmt.Printf("%s\t%s\n", c.fname(f), sigKey(c, f))
+			}
 		}
 		return
 	}
